@@ -9,6 +9,8 @@ are tied to the code (C05, C02, C18, C20):
   with NULs inside, truncated escapes, a backslash as the last byte …), the decoder never reads past
   the terminator: the explicit out-of-bounds result of the model is unreachable, and every
   sub-scanner hands a still-terminated rest to the next one;
+* **the same for Compact and Indent** (their own scanners in internal/encoder, model of C18): the
+  value, element and member loops never read past the terminator and leave a terminated rest;
 * **recursion is bounded** — a container opened at the depth limit is an error, whatever follows;
 * **the models are total functions** (Lean accepts their termination: structural recursion on the
   fuel or on the input, or a decreasing length measure), and the fuel the decoder model is given is
@@ -21,6 +23,7 @@ every prefix and every single-byte mutation of generated documents, every entry 
 types from the generator, readers that deliver arbitrary pieces or fail.
 -/
 import GoJson.Lemmas.Safe2
+import GoJson.Lemmas.CompactSafe
 import GoJson.Props.C20
 
 namespace GoJson.Props.C06
@@ -67,5 +70,25 @@ theorem container_at_limit_is_error (range : Bool) (fuel d : Nat) (r : List UInt
 /-- malformed path text is rejected, never a panic (C20) -/
 theorem createPath_never_panics (text : List Nat) : Model.Path.build text ≠ .panic :=
   GoJson.Props.C20.createPath_never_panics text
+
+/-- **Compact and Indent never read past the terminator**, for every byte string, with or without
+HTML escaping, for every layout, nesting depth and fuel -/
+theorem compact_never_reads_past_terminator (escape : Bool) (lay : Model.Compact.Layout) (fuel d : Nat)
+    (b : List UInt8) : Model.Compact.cvalue escape lay fuel d (b ++ [0]) ≠ .oob := by
+  have ht : Model.Compact.Term (b ++ [0]) := by simp [Model.Compact.Term]
+  have h := (Model.Compact.all_good escape lay fuel d (b ++ [0]) ht).1
+  intro hc
+  rw [hc] at h
+  exact h
+
+/-- … and what a successful Compact / Indent scan leaves behind is still terminated (so the check
+for trailing bytes that follows it is safe too) -/
+theorem compact_rest_is_terminated (escape : Bool) (lay : Model.Compact.Layout) (fuel d : Nat)
+    (b out rest : List UInt8) (h : Model.Compact.cvalue escape lay fuel d (b ++ [0]) = .ok out rest) :
+    rest.getLast? = some 0 := by
+  have ht : Model.Compact.Term (b ++ [0]) := by simp [Model.Compact.Term]
+  have hg := (Model.Compact.all_good escape lay fuel d (b ++ [0]) ht).1
+  rw [h] at hg
+  exact hg
 
 end GoJson.Props.C06
